@@ -3038,7 +3038,11 @@ class ChannelManager:
         try:
             await channel.connect()
         except BaseException as e:
-            connection_channels.pop(source_cid, None)
+            # A channel that is still closing (Disconnection Request sent, response
+            # pending) keeps its CID until it is closed: the CID must not be given
+            # to a new channel while the peer's answers to the old one are in flight
+            if channel.state != ClassicChannel.State.WAIT_DISCONNECT:
+                connection_channels.pop(source_cid, None)
             raise e
 
         return channel
